@@ -131,9 +131,11 @@ func (s *simStore) gate(ctx context.Context, kind string, renew bool) (execute b
 		seam, ord = "acq", w.ordAcq
 	}
 	zsimrt.Yield("st:req:" + kind)
-	if ctx != nil && ctx.Err() != nil && kind != "wait" {
+	if ctx != nil && ctx.Err() != nil && kind != "wait" && w.be.Kind == backend.InMem {
 		// like a networked store, the seam refuses a request whose context is already
-		// done (WaitForVersionChange reports that itself)
+		// done (WaitForVersionChange reports that itself). The in-memory backend
+		// ignores contexts; the Redis client does this check on its own, so there
+		// the call goes through and the real client code decides
 		w.e.Probe("storage_call_with_done_context")
 		return false, false, ctx.Err()
 	}
